@@ -32,6 +32,30 @@ Definition demo_dec_fuel : nat := Z.to_nat 327683.
 (* Reader::raw.chunks_mut(4): 16384 four-byte groups *)
 Definition DEMO_MAX_INTS : Z := 16384.
 
+(* Huffman::decompress, as Model/Huffman.v has it, except that the output (kept newest first)
+   is reversed in linear time; Proofs/DemoBase.v: demo_decompress = decompress *)
+Fixpoint demo_dec_loop (fuel : nat) (t : table) (root : node) (input : bytes)
+         (nd : node) (out : bytes) (room : nat) : res dec_err bytes :=
+  match fuel with
+  | O => OutOfFuel
+  | S f =>
+    let byte := match input with [] => 0 | b :: _ => b end in
+    let rest := match input with [] => [] | _ :: r => r end in
+    match dec_bits t root (byte_bits 8 byte) nd out room with
+    | DCont nd' out' room' => demo_dec_loop f t root rest nd' out' room'
+    | DDone out' => Ok (rev_append out' [])
+    | DErr => Err Capacity
+    | DPanic p => Panic p
+    end
+  end.
+Definition demo_decompress (fuel : nat) (t : table) (input : bytes) (cap : nat) : res dec_err bytes :=
+  match get_node t ROOT_IDX with
+  | Ok (inl root) => demo_dec_loop fuel t root input root [] cap
+  | Ok (inr _) => Panic site_unwrap_root
+  | Panic p => Panic p
+  | Err _ | OutOfFuel => Panic 0
+  end.
+
 (* ---------- panic sites ---------- *)
 Definition site_capped_len : Z := 1501.      (* CappedString::from_raw: assert!(raw.len() < N) *)
 Definition site_map_len : Z := 1502.         (* map.len().assert_i32() *)
@@ -394,7 +418,7 @@ Definition read_header_start (s : bytes) : res rerr (rheader * bytes) :=
   match rd_be_i32 s with None => Err EEof | Some (map_size, s) =>
   if map_size <? 0 then Err EAssert else
   match rd_be_u32 s with None => Err EEof | Some (crc, s) =>
-  match split_at 8 s with None => Err EEof | Some (km, s) =>
+  match split_at 8 s with None => Err ENoVariant | Some (km, s) =>   (* every variant's magic fails *)
   match kind_of_magic km with None => Err ENoVariant | Some kind =>
   match rd_be_i32 s with None => Err EEof | Some (len, s) =>
   if len <? 0 then Err EAssert else
@@ -513,7 +537,7 @@ Definition read_chunk (v : version) (st : dstate) : wres (option (chunk * dstate
     match split_at size rest with
     | None => (Err EIo, ws)                                   (* read_exact *)
     | Some (raw, rest') =>
-      match decompress demo_dec_fuel demo_table raw demo_cap with
+      match demo_decompress demo_dec_fuel demo_table raw demo_cap with
       | Ok data =>
         let st' := {| ds_rest := rest'; ds_tick := ds_tick st |} in
         match k with
